@@ -753,7 +753,11 @@ impl Simulation for EditSim {
   fn run(&self, seed: u64, _tier: &str, _known: &KnownFindings) -> RunReport {
     crate::cli_run::quiet_panics();
     let (mut w, mut rng, nops) = gen_world(seed);
-    let ex = execute(&mut w, Some((&mut rng, nops)));
+    // fresh thread = fresh hash keys (a function of the run seed), independent of what this
+    // worker process ran before
+    crate::hashseam::set_per_thread(false);
+    crate::hashseam::set_hash_seed(crate::rng::mix64(seed ^ 0x4331_30));
+    let ex = std::thread::scope(|sc| sc.spawn(|| execute(&mut w, Some((&mut rng, nops)))).join()).unwrap_or_else(|p| panic!("history thread panicked: {}", crate::driver::panic_msg(&p)));
     let mut r = RunReport::default();
     r.event_hash = hash_events(&ex.events);
     let shape = format!("{}|{}|{}", w.lang, w.faulting, ex.shape.join(","));
